@@ -1,5 +1,6 @@
 import ComposeVerif.Ops.Common
 import ComposeVerif.Model.Interp
+import ComposeVerif.Spec.Interp
 import ComposeVerif.Gen.Tables
 /-! line-protocol ops for C08: `interpolate` (model of interpolation.Interpolate with the regenerated cast
 table), `c08casters` (the integer / boolean casters alone), `c08escape` (the `$`→`$$` rewriting of the spec) -/
@@ -40,7 +41,8 @@ def castersOp : Handler := fun args =>
   let s := getStr args "s"
   Json.mkObj [
     ("int", match parseInt s with | some i => Json.str (ToString.toString i) | none => Json.null),
-    ("bool", match parseBool s with | some b => Json.bool b | none => Json.null)]
+    ("bool", match parseBool s with | some b => Json.bool b | none => Json.null),
+    ("yamloct", match yamlLegacyOctal s with | some i => Json.str (ToString.toString i) | none => Json.null)]
 
 def handlers : List (String × Handler) := [("interpolate", interpolateOp), ("c08casters", castersOp)]
 
